@@ -124,6 +124,9 @@ def r2(run):
                         guards += q.edge_triples(b, bb, lambda m: m is True)
                 if guards and q.dominated(b, c.bb, via_edges=guards):
                     cls, why = "prefix-guarded", "strip_prefix(%s).unwrap() dominated by starts_with(%s)" % (lit, lit)
+            if cls is None and recv[0] == "call" and recv[1].fn in ("std::sync::poison::mutex::Mutex::<T>::lock", "std::sync::poison::rwlock::RwLock::<T>::read",
+                                                                     "std::sync::poison::rwlock::RwLock::<T>::write"):
+                cls, why = "lock-poison", "unwrap of a LockResult fails only after another thread panicked while holding the lock: not a function of the request"
             if cls is None and c.fn.endswith("Index::index") and len(c.args) > 1:
                 # `buf = &buf[n..]` with n = the count an I/O call on that same buffer returned (n <= buf.len() by the Read / Write contract)
                 rng = strip(c.arg(1))
